@@ -236,7 +236,7 @@ pub fn run_c04(ctx: &mut Ctx) {
     }
     // one targeted constructor per failure class, raw and behind a valid zlib header
     for rep in 0..(4 * ctx.scale) {
-        for which in 0..12 {
+        for which in 0..15 {
             let (body, how) = sgen::targeted_invalid(&mut ctx.rng, which);
             let sc = StreamCase { z: body.clone(), zlib: false, tag: format!("targeted_{}", how), expect_len: 1000, prefix_of_valid: false, trail: 0 };
             run_stream(ctx, &sc, 2, rep == 0);
